@@ -5,7 +5,7 @@
    Where the faithful model violates a statement at full strength, the full statement is quoted in the comment, the theorem
    `*_refuted` exhibits a concrete witness (replayed on the real code by checks/fmtps.py) and the theorem itself is stated on
    the decidable domain ps_dom / deb_wf. *)
-From Relic Require Import Base.Prelude Base.Enc Generated.FmtPS_gen FmtPS.Model FmtPS.Lib FmtPS.ProofsPS FmtPS.ProofsPS2 FmtPS.ProofsDEB Laws.Pipeline.
+From Relic Require Import Base.Prelude Base.Enc Generated.FmtPS_gen FmtPS.Model FmtPS.Lib FmtPS.ProofsPS FmtPS.ProofsPS2 FmtPS.ProofsAR FmtPS.ProofsDEB FmtPS.ProofsSlot Laws.Pipeline.
 
 (* ====================================================================================================== PowerShell *)
 (* the format handed to Laws/Pipeline.v is  ps_format style = (ps_hashin style, ps_embed_wf style, ps_extract style, ps_payload style);
@@ -224,6 +224,72 @@ Theorem deb_embed_eq_spec : forall ctl role mtime f b g es, deb_embed_wf ctl rol
   g = ar_spec_file (spec_sign role (mkEnt (ar_whdr (spec_sig_name role) mtime 33188 (zlen b)) b) es).
 Proof. exact FmtPS.ProofsDEB.deb_embed_eq_spec. Qed.
 
+(* ====================================================================================================== Debian: signature slots by LOGICAL member name
+   Domain deb_wf2 (Model.v): as deb_wf, but every 16-byte name field may be either spelling of a proper logical name — BSD / common
+   ("_gpgbuilder" + blanks: dpkg-deb, BSD ar, relic) or System V / GNU ("_gpgbuilder/" + blanks: GNU ar, debsigs) — and logical names
+   are pairwise different.  ar_logical / is_spelling are written from ar(5) and deb(5); deb_norm is GENERATED from
+   `name := path.Clean(hdr.Name)` in lib/signdeb/debsign.go, and every test of the member loop is made on it in the model. *)
+
+(* C08 (specification): both spellings of a name have that name as their logical name *)
+Theorem ar_logical_of_spellings : forall n field, lname_ok n = true -> is_spelling n field = true -> ar_logical field = n.
+Proof. exact FmtPS.ProofsAR.ar_logical_of_spellings. Qed.
+(* C08 (the tie): the name relic's signer compares with "_gpg"+role is the logical name, for every spelling *)
+Theorem deb_norm_is_logical : forall e, ent_spelled_ok e = true -> deb_norm (ent_name e) = ent_lname e.
+Proof. exact FmtPS.ProofsAR.deb_norm_is_logical. Qed.
+Theorem deb_norm_spellings : forall n, lname_ok n = true -> deb_norm n = n /\ deb_norm (n ++ [47]) = n.
+Proof. exact FmtPS.ProofsAR.deb_norm_spellings. Qed.
+(* C08: after Sign there is exactly one member whose logical name is _gpg<role>, it is the new signature, every other member
+   is byte-identical and in order; the signed package is the specification's operation on logical names *)
+Theorem deb_slot_replaced : forall ctl role mtime f b g, deb_embed_wf2 ctl role mtime f b = Ok g ->
+  exists es es', ar_spec_parse f = Some es /\ ar_spec_parse g = Some es' /\
+    es' = spec_sign_l role (mkEnt (ar_whdr (spec_sig_name role) mtime 33188 (zlen b)) b) es /\
+    filter (lslot role) es' = [mkEnt (ar_whdr (spec_sig_name role) mtime 33188 (zlen b)) b] /\
+    filter (fun e => negb (lslot role e)) es' = filter (fun e => negb (lslot role e)) es.
+Proof. exact FmtPS.ProofsSlot.deb_slot_replaced. Qed.
+Theorem deb_slot_replaced_check : forall ctl role mtime f b g es es', deb_embed_wf2 ctl role mtime f b = Ok g ->
+  ar_spec_parse f = Some es -> ar_spec_parse g = Some es' -> slot_replaced_ok role b es es' = true.
+Proof. exact FmtPS.ProofsSlot.deb_slot_replaced_check. Qed.
+(* C08: the result is in the domain again (signing repeats), and the old domain with one member per name is inside the new one *)
+Theorem deb_wf2_preserved : forall ctl role mtime f b g, deb_embed_wf2 ctl role mtime f b = Ok g -> deb_wf2 ctl g = true.
+Proof. exact FmtPS.ProofsSlot.deb_wf2_preserved. Qed.
+Theorem deb_wf_in_wf2 : forall ctl f es, deb_wf ctl f = true -> ar_spec_parse f = Some es -> distinct_names (map ent_name es) = true -> deb_wf2 ctl f = true.
+Proof. exact FmtPS.ProofsSlot.deb_wf_in_wf2. Qed.
+(* C08: Verify's role map holds the new signature under `role` and no other entry for that role under either spelling *)
+Theorem deb_no_stale_signature : forall ctl role mtime f b g, deb_embed_wf2 ctl role mtime f b = Ok g ->
+  exists sg, deb_sigs g = Ok sg /\ lookup_last role sg = Some b /\
+    forall r s, In (r, s) sg -> strip_slash r = role -> r = role /\ s = b.
+Proof. exact FmtPS.ProofsSlot.deb_no_stale_signature. Qed.
+(* C08: the digest input ignores the existing signature, whatever its spelling *)
+Theorem deb_law_hashin2 : forall ctl role mtime f b g,
+  deb_embed_wf2 ctl role mtime f b = Ok g -> deb_hashin ctl g = deb_hashin ctl f.
+Proof. exact FmtPS.ProofsSlot.deb_law_hashin2. Qed.
+(* C03 *)
+Theorem deb_law_payload2 : forall ctl role mtime f b g,
+  deb_embed_wf2 ctl role mtime f b = Ok g -> deb_payload g = deb_payload f.
+Proof. exact FmtPS.ProofsSlot.deb_law_payload2. Qed.
+(* C01 *)
+Theorem deb_law_extract2 : forall ctl role mtime f b g,
+  deb_embed_wf2 ctl role mtime f b = Ok g -> deb_extract role g = Ok (Some b).
+Proof. exact FmtPS.ProofsSlot.deb_law_extract2. Qed.
+Theorem deb_embed_total2 : forall ctl role mtime f b,
+  deb_wf2 ctl f = true -> role_ok role = true -> zlen b < 10000000000 -> 0 <= mtime -> exists g, deb_embed_wf2 ctl role mtime f b = Ok g.
+Proof. exact FmtPS.ProofsSlot.deb_embed_total2. Qed.
+(* C01: a package whose last member header is cut short is refused (the ar reader's error is returned by Sign, not swallowed) *)
+Theorem deb_truncated_header_refused : forall ctl f junk, deb_wf2 ctl f = true -> 0 < zlen junk < 60 ->
+  deb_hashin ctl (f ++ junk) = Err E_SHORT /\ forall role mtime b, deb_embed ctl role mtime (f ++ junk) b = Err E_SHORT.
+Proof. exact FmtPS.ProofsSlot.deb_truncated_header_refused. Qed.
+(* C01: relic's manifest (names as stored) passes relic's check on the re-signed package (digest map keyed by the stored names) *)
+Theorem deb_verifier_accepts_resigned : forall ctl role mtime f b g (D : bytes -> bytes) s ms,
+  deb_embed_wf2 ctl role mtime f b = Ok g -> (forall d, D d <> []) -> deb_scan ctl f = Ok s -> deb_vmembers g = Ok ms ->
+  deb_check (deb_lines D (deb_listed_members (ds_members s))) (deb_digests D ms) = Ok tt.
+Proof. exact FmtPS.ProofsSlot.deb_verifier_accepts_resigned. Qed.
+(* the hypothesis "logical names pairwise different" is needed: a package that already carries the role under BOTH spellings keeps
+   one of them (only the last member of the slot is replaced) *)
+Theorem deb_slot_two_spellings_refuted : exists g es',
+  deb_wf2 w_ctl w_deb_both = false /\ deb_embed w_ctl w_role_builder 0 w_deb_both [7] = Ok g /\ ar_spec_parse g = Some es' /\
+  length (filter (lslot w_role_builder) es') = 2%nat.
+Proof. exact FmtPS.ProofsSlot.deb_slot_two_spellings_refuted. Qed.
+
 (* ====================================================================================================== the pipeline *)
 (* C01 / C08: Laws.Pipeline.sign_then_verify and resign_history for both formats; cryptography symbolic *)
 Section Crypto.
@@ -259,6 +325,17 @@ Section Crypto.
     /\ is_signed _ (deb_format ctl role mtime) g = true
     /\ deb_payload g = deb_payload f /\ deb_hashin ctl g = deb_hashin ctl f.
   Proof. exact (FmtPS.ProofsDEB.deb_resign_history key pubk sigv H pub sign vrfy sign_correct tbs ser deser deser_ser). Qed.
+  (* C01 / C08 on the extended domain: histories that start from a package signed by a third party under either spelling *)
+  Theorem deb_sign_then_verify2 : forall ctl role mtime k a f g,
+    sign_file key pubk sigv H pub sign tbs ser _ (deb_format2 ctl role mtime) k a f = Ok g ->
+    verify_file pubk sigv H vrfy tbs deser _ (deb_format2 ctl role mtime) g = Accept pubk (pub k) a.
+  Proof. exact (FmtPS.ProofsSlot.deb_sign_then_verify2 key pubk sigv H pub sign vrfy sign_correct tbs ser deser deser_ser). Qed.
+  Theorem deb_resign_history2 : forall ctl role mtime hist f g k a,
+    resign key pubk sigv H pub sign tbs ser _ (deb_format2 ctl role mtime) (hist ++ [(k, a)]) f = Ok g ->
+    verify_file pubk sigv H vrfy tbs deser _ (deb_format2 ctl role mtime) g = Accept pubk (pub k) a
+    /\ is_signed _ (deb_format2 ctl role mtime) g = true
+    /\ deb_payload g = deb_payload f /\ deb_hashin ctl g = deb_hashin ctl f.
+  Proof. exact (FmtPS.ProofsSlot.deb_resign_history2 key pubk sigv H pub sign vrfy sign_correct tbs ser deser deser_ser). Qed.
 End Crypto.
 
 (* ====================================================================================================== non-vacuity *)
@@ -307,3 +384,39 @@ Example sign_hypothesis_satisfiable :
   is_ok (sign_file unit unit unit (fun a m => [a; zlen m]) (fun _ => tt) (fun _ _ => tt) (fun _ d => d) toy_ser bytes (ps_format 1) tt 4 ex_u8) = true /\
   is_ok (sign_file unit unit unit (fun a m => [a; zlen m mod 256]) (fun _ => tt) (fun _ _ => tt) (fun _ d => d) toy_ser _ (deb_format w_ctl ex_role 0) tt 4 w_deb) = true.
 Proof. vm_compute. split; reflexivity. Qed.
+
+(* packages written by GNU ar (every name terminated by a slash) or by dpkg-deb with a debsigs signature appended by GNU ar are in
+   the extended domain (and outside the old one); signing in the occupied role replaces the member under either spelling, twice;
+   an 11-character role (15-character member name: the System V spelling fills the field) and a 12-character role work too *)
+Example deb_wf2_inhabited :
+  deb_wf2 w_ctl w_deb_gnu = true /\ deb_wf2 w_ctl w_deb_mixed = true /\ deb_wf w_ctl w_deb_mixed = false /\ deb_wf2 w_ctl w_deb = true
+  /\ deb_wf2 w_ctl w_deb_role11 = true.
+Proof. vm_compute. repeat split; reflexivity. Qed.
+Example deb_slot_computed :
+  match deb_embed_wf2 w_ctl w_role_builder 7 w_deb_mixed [1; 2; 3], ar_spec_parse w_deb_mixed with
+  | Ok g, Some es =>
+      zlen g = zlen w_deb_mixed /\ deb_extract w_role_builder g = Ok (Some [1; 2; 3]) /\ deb_sigs g = Ok [(w_role_builder, [1; 2; 3])] /\
+      match ar_spec_parse g with Some es' => slot_replaced_ok w_role_builder [1; 2; 3] es es' = true /\ length es' = length es | None => False end /\
+      match deb_embed_wf2 w_ctl w_role_builder 8 g [4] with
+      | Ok g2 => deb_sigs g2 = Ok [(w_role_builder, [4])] /\ deb_payload g2 = deb_payload w_deb /\ deb_hashin w_ctl g2 = deb_hashin w_ctl w_deb_mixed
+      | _ => False
+      end
+  | _, _ => False
+  end /\
+  match deb_embed_wf2 w_ctl w_role_builder 7 w_deb_gnu [5] with
+  | Ok g => deb_sigs g = Ok [(w_role_builder, [5])] /\ deb_payload g = deb_payload w_deb_gnu /\ deb_wf2 w_ctl g = true
+  | _ => False
+  end /\
+  match deb_embed_wf2 w_ctl w_role11 7 w_deb_role11 [6] with
+  | Ok g => deb_sigs g = Ok [(w_role11, [6])] /\ zlen g = zlen w_deb_role11 - 2
+  | _ => False
+  end.
+Proof. vm_compute. repeat split; reflexivity. Qed.
+(* the tie is sensitive to the normalisation: trimming blanks (or nothing) leaves the System V terminator in place *)
+Example deb_norm_sensitive :
+  go_path_clean (w_name_gpgbuilder ++ [47]) = w_name_gpgbuilder /\ go_trim_space (w_name_gpgbuilder ++ [47]) <> w_name_gpgbuilder
+  /\ go_trim_suffix (w_name_gpgbuilder ++ [47]) [47] = w_name_gpgbuilder /\ go_path_base (w_name_gpgbuilder ++ [47]) = w_name_gpgbuilder.
+Proof. vm_compute. repeat split; try reflexivity. discriminate. Qed.
+Example sign_hypothesis_satisfiable2 :
+  is_ok (sign_file unit unit unit (fun a m => [a; zlen m mod 256]) (fun _ => tt) (fun _ _ => tt) (fun _ d => d) toy_ser _ (deb_format2 w_ctl w_role_builder 0) tt 4 w_deb_mixed) = true.
+Proof. vm_compute. reflexivity. Qed.
